@@ -318,6 +318,8 @@ pub fn run_case(ctx: &mut Ctx, fam: &str, _k: u64, r: &mut Rng) {
     let steps = ctx.tier.n(20, 40) as usize;
     let mut clears = 0u64;
     let mut flagged = 0u64;
+    let mut last_seed: Option<SeedMode> = None;
+    h.reuse_seed_handles = true;
     let mut steered = 0u64;
     if fam == "untracked-then-tracked" {
         // x used untracked inside a differentiated graph, then tracked
@@ -370,6 +372,13 @@ pub fn run_case(ctx: &mut Ctx, fam: &str, _k: u64, r: &mut Rng) {
                 }
                 s => s,
             };
+            // the seed of the previous pass handed in again (the same array, as `seed.clone()`): two passes, two
+            // contributions
+            let seed = match &last_seed {
+                Some(ls) if r.chance(1, 4) && ls.values(h.st.refv[start].v.len()).len() == h.st.refv[start].v.len() && *ls != SeedMode::Omitted => ls.clone(),
+                _ => seed,
+            };
+            last_seed = Some(seed.clone());
             let via_clone = r.chance(1, 4);
             h.pass(start, &seed, via_clone, true);
         } else if c < 80 {
@@ -406,6 +415,7 @@ pub fn run_case(ctx: &mut Ctx, fam: &str, _k: u64, r: &mut Rng) {
     ctx.case(&h.text(), h.passes >= 2 && multi);
     ctx.count("clears", clears);
     ctx.count("flagged_clones_taken", flagged);
+    ctx.count("passes_seeded_with_an_array_used_as_seed_before", h.seeds_handed_in_again);
     ctx.count("steered_passes", steered);
     ctx.hist("family", fam);
     ctx.hist("passes_per_history", &format!("{:02}", h.passes.min(30)));
